@@ -434,6 +434,37 @@ namespace trk
         friend bool operator<(const Tracked &a, const Tracked &b) { return a.peek("operator<") < b.peek("operator<"); }
     };
 
+    // ------------------------------------------------------------ element types with unusual but legal properties
+    // Overloaded unary operator&: `&x` does not yield the address of x (COM-style smart handles do this). Generic
+    // code has to use std::addressof. Here `&x` points at a dummy that is not an object: whoever destroys or
+    // constructs through it is reported by the registry, and the real element is never reached.
+    struct Amp : Tracked
+    {
+        using Tracked::Tracked;
+        Amp() = default;
+        Amp(const Amp &) = default;
+        Amp(Amp &&) = default;
+        Amp &operator=(const Amp &) = default;
+        Amp &operator=(Amp &&) = default;
+        static Amp *dummy()
+        {
+            alignas(Tracked) static unsigned char raw[sizeof(Tracked)];
+            return reinterpret_cast<Amp *>(raw);
+        }
+        Amp *operator&() { return dummy(); }
+        const Amp *operator&() const { return dummy(); }
+    };
+    // Move-only: no copy constructor, no copy assignment.
+    struct MoveOnly : Tracked
+    {
+        using Tracked::Tracked;
+        MoveOnly() = default;
+        MoveOnly(const MoveOnly &) = delete;
+        MoveOnly &operator=(const MoveOnly &) = delete;
+        MoveOnly(MoveOnly &&) = default;
+        MoveOnly &operator=(MoveOnly &&) = default;
+    };
+
     inline int value_of(const Tracked &t) { return t.peek("harness read"); }
     inline int value_of(int v) { return v; }
     inline int value_of(char v) { return (unsigned char)v; }
